@@ -294,7 +294,10 @@ def harnesses(tier):
            ('serial', e2.Config(spec=chain, requested=req3, precached=(0, 1, 2), bust_cache=True), 0),
            # default displays on: progress bars and the task monitor (psutil queries) run in the calling thread too
            ('serial+displays', e2.Config(spec=mk_spec(((), ()), types=('TA', 'TA')), requested=((0, False), (1, False))), 0)]
+    # a task that fails (continue_on_failure=True) while the interrupt is being handled
+    out.append(('serial', e2.Config(spec=chain, requested=req3, faults=(0,)), 0))
     dev = 1 if tier == 'quick' else 2
+    out.append(('fork', e3.E3Config(base=e2.Config(spec=chain, requested=req3, faults=(2,)), backend='fork', max_workers=2, liveness_choice=False), dev))
     for be in ('fork', 'spawn'):
         for mw in (1, 2):
             out.append((be, e3.E3Config(base=e2.Config(spec=chain, requested=req3), backend=be, max_workers=mw, liveness_choice=False), dev))
